@@ -14,7 +14,7 @@ ID = "C20"
 LEVEL = "exploration"
 RULE = (
     "shapes: P (both orientations, int/Fraction/float), PC composites (with holes, several components, unbounded), curved Q "
-    "(quadratic circles, lens, cubic blob, mixed-degree rounded square, both orientations), curved composites, operator results, "
+    "(quadratic circles, lens, cubic blob, mixed-degree rounded square, both orientations), single-segment closed cubics (teardrop; alone, clockwise, as hole, as component), curved composites, operator results, "
     "Empty, Whole; each plotted with ShapePloter on a fresh Agg figure. Decoding MOVETO/LINETO/CURVE3/CURVE4/CLOSEPOLY of every "
     "PathPatch: one filled path per connected component containing all its boundary curves, one outline per boundary curve, each "
     "retracing the curve segment by segment (same degrees, control points within 1e-6), closed, in order; bounded components "
@@ -34,6 +34,9 @@ def shapes(tier):
         out.append(["L", "Q." + q])
         out.append(["L", "Q." + q + "@cw"])
     out += [["CQ", "ringc"], ["CQ", "twoc"], ["CQ", "xringc"], ["E"], ["W"]]
+    # boundaries made of a single closed segment: alone, clockwise, as a hole, as a component
+    box = ["V", [[-3.0, -1.0], [3.0, -1.0], [3.0, 3.0], [-3.0, 3.0]]]
+    out += [["L", "Q.tear"], ["L", "Q.tear@cw"], ["L", "Q.tearg"], ["-", box, ["L", "Q.tear"]], ["|", ["L", "Q.tear"], ["L", "Q.c8far"]]]
     # boundaries with redundant vertices (as the operators leave them on their operands)
     out += [["SP", ["L", "P.sqA#int"]], ["SP", ["L", "P.L#float@cw"]], ["SP", ["PC", "hollow", "int"]], ["SP", ["PC", "two", "frac"]], ["SP", ["L", "Q.c8"]], ["SP", ["L", "Q.blob"]], ["SP", ["L", "Q.mixg"]], ["V", [[0, 0], [1, 0], [3, 0], [3, 2], [0, 2]]], ["G", "Q.rsq"]]
     out += [["-", ["L", "P.sqA#int"], ["L", "P.triA#int"]], ["^", ["L", "P.sqA#int"], ["L", "P.sqB#int"]], ["|", ["L", "Q.c8"], ["L", "Q.fsq"]], ["-", ["L", "Q.c16"], ["L", "Q.c8s"]]]
